@@ -388,3 +388,110 @@ func (e *orderEnv) bornLikeSameConfig(p *provInst, epDirty bool) string {
 	}
 	return ""
 }
+
+// ---- what the members of op.Config are documented to mean ---------------------------------------------------
+//
+// A provider that was built after others (or is asked for the first time while others are being asked) is configured by ITS
+// OWN op.Config: a list, flag or device setting another instance was given - memoised in a package-level variable, or left
+// behind in a shared object - shows as a deviation from these few rules. Only members whose meaning the Config documents
+// are looked at; endpoints are judged elsewhere.
+
+func (c *ProvCfg) discoveryMismatch(doc map[string]any) []string {
+	if c == nil {
+		c = &ProvCfg{}
+	}
+	var l []string
+	list := func(m string) []string {
+		a, _ := doc[m].([]any)
+		out := []string{}
+		for _, v := range a {
+			out = append(out, fmt.Sprint(v))
+		}
+		return out
+	}
+	wantList := func(m, field string, want []string) {
+		if got := list(m); !slices.Equal(got, want) {
+			l = append(l, fmt.Sprintf("%s=%q, but %s of its Config says %q", m, got, field, want))
+		}
+	}
+	has := func(m, v, field string, want bool) {
+		if slices.Contains(list(m), v) != want {
+			l = append(l, fmt.Sprintf("%s=%q, but %s of its Config is %v", m, list(m), field, want))
+		}
+	}
+	flag := func(m, field string, want bool) {
+		if got, _ := doc[m].(bool); got != want {
+			l = append(l, fmt.Sprintf("%s=%v, but %s of its Config is %v", m, doc[m], field, want))
+		}
+	}
+	scopes, claims := c.Scopes, c.Claims
+	if scopes == nil {
+		scopes = pristineScopes
+	}
+	if claims == nil {
+		claims = pristineClaims
+	}
+	wantList("scopes_supported", "SupportedScopes (nil: op.DefaultSupportedScopes)", scopes)
+	wantList("claims_supported", "SupportedClaims (nil: op.DefaultSupportedClaims)", claims)
+	locales := []string{}
+	for _, s := range c.Locales {
+		if tag, err := language.Parse(s); err == nil {
+			locales = append(locales, tag.String())
+		}
+	}
+	wantList("ui_locales_supported", "SupportedUILocales", locales)
+	has("grant_types_supported", string(oidc.GrantTypeRefreshToken), "GrantTypeRefreshToken", !c.NoRefresh)
+	has("token_endpoint_auth_methods_supported", string(oidc.AuthMethodPost), "AuthMethodPost", !c.NoPost)
+	has("token_endpoint_auth_methods_supported", string(oidc.AuthMethodPrivateKeyJWT), "AuthMethodPrivateKeyJWT", !c.NoPKJWT)
+	has("code_challenge_methods_supported", string(oidc.CodeChallengeMethodS256), "CodeMethodS256", !c.NoS256)
+	flag("request_parameter_supported", "RequestObjectSupported", !c.NoReqObj)
+	flag("backchannel_logout_supported", "BackChannelLogoutSupported", c.BackChannel&1 == 1)
+	flag("backchannel_logout_session_supported", "BackChannelLogoutSessionSupported", c.BackChannel&2 == 2)
+	return l
+}
+
+// deviceMismatch: the answer to a device authorization request, by the DeviceAuthorizationConfig of the provider asked
+// (iss: the issuer of the request).
+func (c *ProvCfg) deviceMismatch(iss string, d devAnswer) []string {
+	if c == nil {
+		c = &ProvCfg{}
+	}
+	if d.Status != 200 || d.UserCode == "" {
+		return nil
+	}
+	dc := c.build(iss).cfg.DeviceAuthorization
+	var l []string
+	uri := dc.UserFormURL
+	if uri == "" {
+		uri = iss + dc.UserFormPath
+	}
+	if d.URI != uri {
+		l = append(l, fmt.Sprintf("verification_uri=%q, its Config says %q", d.URI, uri))
+	}
+	if want := uri + "?user_code=" + d.UserCode; d.Complete != want {
+		l = append(l, fmt.Sprintf("verification_uri_complete=%q, its Config and the user code of this answer say %q", d.Complete, want))
+	}
+	if want := float64(dc.Lifetime / time.Second); d.ExpiresIn != want {
+		l = append(l, fmt.Sprintf("expires_in=%v, its Config says %v", d.ExpiresIn, want))
+	}
+	if want := float64(dc.PollInterval / time.Second); d.Interval != want {
+		l = append(l, fmt.Sprintf("interval=%v, its Config says %v", d.Interval, want))
+	}
+	n, shapeOK := 0, true
+	for i, r := range d.UserCode {
+		switch {
+		case r == '-':
+			shapeOK = shapeOK && dc.UserCode.DashInterval > 0 && (i+1)%(dc.UserCode.DashInterval+1) == 0
+		case strings.ContainsRune(dc.UserCode.CharSet, r):
+			n++
+		default:
+			shapeOK = false
+		}
+	}
+	if !shapeOK || n != dc.UserCode.CharAmount {
+		l = append(l, fmt.Sprintf("user_code=%q, its Config says %d characters of %q with a dash every %d", d.UserCode, dc.UserCode.CharAmount, dc.UserCode.CharSet, dc.UserCode.DashInterval))
+	}
+	return l
+}
+
+const fpNotOwnConfig = "C20:provider-not-configured-by-its-own-config"
